@@ -65,13 +65,14 @@ def clipAt [LE R] [DecidableLE R] (lo hi : R) (a : R) : R :=
   let t := if a ≤ lo then lo else a
   if hi ≤ t then hi else t
 
-/-- `numpy.clip(x, min, max)` where a bound may be `None` (tools.py l.721-735) -/
-def clipOpt [LE R] [DecidableLE R] (lo hi : Option R) (a : R) : R :=
+/-- `numpy.clip(x, min, max)` with scalar bounds, either possibly `None` (tools.py l.721-735):
+`t = lo if x < lo else x; hi if t > hi else t` (ties keep `x`, NaN propagates) -/
+def clipOpt [LT R] [DecidableLT R] (lo hi : Option R) (a : R) : R :=
   let t := match lo with
-    | some l => if a ≤ l then l else a
+    | some l => if a < l then l else a
     | none => a
   match hi with
-  | some h => if h ≤ t then h else t
+  | some h => if h < t then h else t
   | none => t
 
 /-- Python `a == b` on numbers, from `≤` only (false on NaN, true on `0.0 == -0.0`) -/
@@ -269,17 +270,20 @@ def monotonic [LT R] [DecidableLT R] (asc : Bool) (idx : Option (List Int)) (x :
 
 def imposeAt (index : List Int) (target : R ⊕ List R) (x : List R) : Except Err (List R) :=
   let kept := index.filter (fun i => i < Int.ofNat x.length)     -- `[i for i in index if i < len(x)]`
-  match wrapAll x.length kept with
-  | none => .error .index
-  | some ks =>
-    match target with
-    | .inl t => .ok (scatter ks (List.replicate ks.length t) x)
+  -- numpy broadcasts the value against the index array BEFORE it checks the index bounds
+  let vals : Option (List R) := match target with
+    | .inl t => some (List.replicate kept.length t)
     | .inr ts =>
-      if ts.length = ks.length then .ok (scatter ks ts x)
-      else
-        match ts with
-        | [t] => .ok (scatter ks (List.replicate ks.length t) x)   -- numpy broadcasts a length-1 value
-        | _ => .error .value                                        -- numpy: shape mismatch
+      if ts.length = kept.length then some ts
+      else match ts with
+        | [t] => some (List.replicate kept.length t)             -- a length-1 value broadcasts
+        | _ => none
+  match vals with
+  | none => .error .value                                        -- shape mismatch
+  | some vs =>
+    match wrapAll x.length kept with
+    | none => .error .index                                      -- an index below `-len(x)`
+    | some ks => .ok (scatter ks vs x)
 
 /-! ## Python item access with negative indices -/
 
@@ -358,7 +362,7 @@ def imposeAs [Add R] (mask : List (Int × Int)) (offset : R) (x : List R) : Exce
 
 /-! ## clipped / suppressed / masked (tools.py l.505-735) -/
 
-def clipped [LE R] [DecidableLE R] (lo hi : Option R) (x : List R) : List R := x.map (clipOpt lo hi)
+def clipped [LT R] [DecidableLT R] (lo hi : Option R) (x : List R) : List R := x.map (clipOpt lo hi)
 
 /-- `suppress(x, tol, clip=True)`: `x[abs(x) < tol] = 0.0` -/
 def suppress [LT R] [DecidableLT R] [Neg R] [OfNat R 0] (tol : R) (x : List R) : List R :=
